@@ -116,3 +116,24 @@ Definition case_diag (c : dcase) : list bool :=
    pairs_match (c_sing c) (singular_pairs nel St Sr (gd_ea (c_grid c)) (gd_va (c_grid c)));
    matrix_ok (c_tol c) (model_triplets c) (c_rows c) (c_cols c) (c_impl c);
    tmat_ok nel St (c_Tt c); tmat_ok nel Sr (c_Tr c)].
+
+(* ---- first-level cases: ANY regular/singular assembler (default scalar, Laplace / Helmholtz / modified Helmholtz
+   hypersingular, Maxwell electric / magnetic).  The local values are the entries of the matrix the SAME assembler
+   produced on the full-grid element-wise spaces (unit multipliers, l2g = ns*e+i); the model scatters them through the
+   DOF maps, multipliers, supports, colour classes and singular pair lists of the restricted spaces and must reproduce
+   the matrix the assembler produced there (this is C04_congruence evaluated on the implementation's arrays). *)
+Record lcase := mkLCase {
+  l_grid : griddata; l_test : spdata; l_trial : spdata; l_AD : list (list dy);
+  l_rows : nat; l_cols : nat; l_impl : list (list dy); l_tol : dy }.
+Definition tab (m : list (list dy)) (r c : nat) : dy := nth c (nth r m []) 0.
+Definition lcase_triplets (c : lcase) : list (@trip dy) :=
+  let St := to_space (l_test c) in let Sr := to_space (l_trial c) in
+  let nst := sp_ns St in let nsr := sp_ns Sr in
+  dense_triplets true (to_topo (l_grid c))
+    (fun te tr i j => tab (l_AD c) (nst * te + i) (nsr * tr + j))
+    (fun p i j => tab (l_AD c) (nst * s_te p + i) (nsr * s_tr p + j)) St Sr.
+Definition lcase_ok (c : lcase) : bool :=
+  let St := to_space (l_test c) in let Sr := to_space (l_trial c) in
+  let nel := gd_nel (l_grid c) in
+  wf_colors_b nel St && wf_colors_b nel Sr && wf_adj_b nel (gd_ea (l_grid c)) && wf_adj_b nel (gd_va (l_grid c)) &&
+  matrix_ok (l_tol c) (lcase_triplets c) (l_rows c) (l_cols c) (l_impl c).
